@@ -1,4 +1,6 @@
 import TartModel.Proofs.InputLemmas
+import TartModel.Proofs.LitVarLemmas
+import TartModel.Proofs.NaturalLeaf
 import TartModel.Impl.Exec
 /-
   C05 — field and directive arguments reach resolvers spec-coerced; literal = variable.
@@ -106,5 +108,50 @@ theorem nested_variable_untyped_witness :
     cases this with
     | scalar hft hleaf => simp [InLeafOK] at hleaf
     | enum hft _ => simp [Sw, Schema.findType] at hft
+
+
+/-! ### literal = variable, structurally (every type, every nesting) -/
+
+theorem literal_arg_core (n : Nat) (S : Schema) (o : Oracle) (ad : ArgDef) (l vl : Loc) (name : String)
+    (node : Value) (v : PyVal) (vars : Vars) (hnn : node ≠ .null) (hnv : ∀ x, node ≠ .var x)
+    (hlit : coerceArgument n S o ad l (some ⟨name, node, vl⟩) vars = .value v) :
+    coerceLiteral n S o (some vars) false ad.type node = some v := by
+  cases node <;> first | exact absurd rfl hnn | exact absurd rfl (hnv _) | skip
+  all_goals
+    simp only [coerceArgument, Option.isSome_some, Bool.not_true, Bool.false_and, Bool.false_or, Bool.false_eq_true, ↓reduceIte] at hlit
+    split at hlit <;> first | (simp at hlit; rw [← hlit]; assumption) | cases hlit
+
+/-- literal = variable, full structural statement: an argument written as a constant literal of the natural
+    shape, and the same argument supplied through a variable carrying the JSON value the literal denotes,
+    deliver the same Python value — through every nesting of non-null, list (including a single value standing
+    for a list), enum and input-object types, omitted input fields and their SDL defaults -/
+theorem literal_eq_variable (n : Nat) (S : Schema) (o : Oracle) (hS : DefaultsConst S) (ad : ArgDef) (l vl : Loc) (name : String)
+    (node : Value) (j v : PyVal) (vars : Vars)
+    (hnat : NatLit S NaturalLeaf ad.type node) (hnn : node ≠ .null) (hj : jsonOf o node = some j)
+    (hlit : coerceArgument n S o ad l (some ⟨name, node, vl⟩) vars = .value v) :
+    coerceVariable n S o ⟨"x", ad.type, none, l⟩ [("x", j)] = .value v ∧
+    coerceArgument n S o ad l (some ⟨name, .var "x", vl⟩) [("x", v)] = .value v := by
+  have hnv := jsonOf_not_var o node j hj
+  have hvf := natLit_varFree naturalLeaf_varFree node ad.type hnat
+  have h1 := literal_arg_core n S o ad l vl name node v vars hnn hnv hlit
+  rw [const_ignores_vars S o hS (some vars) n false ad.type node hvf] at h1
+  have hin := lit_var_all S o NaturalLeaf (naturalLeaf_agree o) n false ad.type node j v hnat hj h1
+  have hjn := jsonOf_ne_none o node j hnn hj
+  have hvn : v ≠ .none := fun he => hnn ((coerceLiteral_const_typed n S o false ad.type node v h1).2 he)
+  have hvu := coerceLiteral_const_ne_undef S o n false ad.type node v h1
+  refine ⟨?_, ?_⟩
+  · simp only [coerceVariable, lookupKV, beq_self_eq_true, ↓reduceIte, hin]
+    cases j <;> simp [isNone] <;> exact absurd rfl hjn
+  · cases v <;> first | exact absurd rfl hvn | exact absurd rfl hvu | simp [coerceArgument, lookupKV]
+
+
+/-- non-vacuity: a nested natural literal for `[In!]` with `input In { a: Int = 7, b: [String] }` and its JSON value -/
+def Slv : Schema := { types := [.scalar "Int", .scalar "String", .input "In" [⟨"a", .named "Int", some (.int "7")⟩, ⟨"b", .list (.named "String"), none⟩]],
+                      queryType := "Query", mutationType := none, subscriptionType := none, directives := [] }
+def nodeLv : Value := .list [.obj [("b", .str "x")], .obj [("a", .int "1"), ("b", .list [.str "y", .null])]]
+example : jsonOf ⟨fun _ => none⟩ nodeLv =
+    some (.list [.dict [("b", .str "x")], .dict [("a", .int 1), ("b", .list [.str "y", .none])]]) := by rfl
+example : coerceLiteral 8 Slv ⟨fun _ => none⟩ none false (.list (.nonNull (.named "In"))) nodeLv =
+    some (.list [.dict [("a", .int 7), ("b", .list [.str "x"])], .dict [("a", .int 1), ("b", .list [.str "y", .none])]]) := by rfl
 
 end Tart.C05
